@@ -175,7 +175,17 @@ func e1(w *World, r *Report) {
 	if aa != nil {
 		s := w.findCall(aa, "recv.addAccessedObjAddr(p0)")
 		d := w.findCall(aa, "recv.StateDB.AddAddressToAccessList(p0)")
-		r.Check(s != nil && d != nil && instrDominates(s, d), "E-1", "AddAddressToAccessList", "syncs the address in before adding it to the access list", "AddAddressToAccessList does not sync the address in first", fnSite(w, aa))
+		// on EVERY path (the wrapper's own bookkeeping decides whether there is anything to
+		// copy: go-ethereum's access list is reset at another moment than the wrapper's record)
+		always := s != nil
+		if s != nil {
+			for _, ex := range exitsAvoiding(ipos{aa.Blocks[0], 0}, func(in ssa.Instruction) bool { return in == ssa.Instruction(s.(ssa.Instruction)) }, nil) {
+				if _, isRet := ex.(*ssa.Return); isRet {
+					always = false
+				}
+			}
+		}
+		r.Check(s != nil && d != nil && instrDominates(s, d) && always, "E-1", "AddAddressToAccessList", "syncs the address in on every path, before adding it to the access list", "AddAddressToAccessList does not sync the address in first on every path (it may return without consulting the wrapper's own record of synchronised addresses)", fnSite(w, aa))
 	}
 	pa := needFn(r, "E-1", w, fref{pkgEVM, "StateDBWrapper", "PrepareAccessList"})
 	if pa != nil {
